@@ -71,6 +71,36 @@ def vars : Ty → List Nat
 def Acyclic (σ : Store) : Prop :=
   ∃ rk : Nat → Nat, ∀ v t, parent σ v = some t → ∀ w ∈ vars t, rk w < rk v
 
+/-! ## enumeration of small types and their rendering as mimium expressions (correspondence with the real type checker) -/
+
+/-- all types of constructor depth ≤ `d` over the leaves `other`, `?0`, `?1` -/
+def enumTy : Nat → List Ty
+  | 0 => [.other, .var 0, .var 1]
+  | d + 1 =>
+    let sub := enumTy d
+    sub ++ sub.map .unary ++ (sub.flatMap fun a => sub.map fun b => .anyOf a b) ++ (sub.flatMap fun a => sub.map fun b => .fn a b)
+
+/-- an expression whose inferred type is `t` when `x : ?0`, `y : ?1` (state: counter for fresh lambda parameters).
+`other` = a number, `unary` = array literal, `anyOf` = pair, `fn a r` = `|p| { let u = [p, ⟦a⟧] ⟦r⟧ }` (the array literal
+unifies the parameter with `⟦a⟧`). -/
+def render : Ty → Nat → String × Nat
+  | .other, k => ("1.0", k)
+  | .var 0, k => ("x", k)
+  | .var _, k => ("y", k)
+  | .unary t, k => let (s, k) := render t k; ("[" ++ s ++ "]", k)
+  | .anyOf a b, k =>
+    let (sa, k) := render a k
+    let (sb, k) := render b k
+    ("(" ++ sa ++ ", " ++ sb ++ ")", k)
+  | .fn a r, k =>
+    let (sa, k1) := render a (k + 1)
+    let (sr, k2) := render r k1
+    (s!"|p{k}| \{ let u{k} = [p{k}, {sa}]\n {sr} }", k2)
+
+/-- the program that makes the real type checker unify `?0` with `t` -/
+def program (t : Ty) : String :=
+  "fn f(x, y){ let w = [x, " ++ (render t 0).1 ++ "]\n 0.0 }\nfn dsp(){ 0.0 }\n"
+
 /-! ## tuple projection (`Expr::Proj`) -/
 
 /-- `vec_to_ans`: `if vec.len() < idx { Err(IndexOutOfRange) } else { Ok(vec[idx]) }`; the inner `Option` is Rust's bounds
